@@ -670,8 +670,10 @@ fn run(cx: &Cx) {
     });
     let n_jobs = jobs.len() + pairs.len() + 1;
 
-    if cnt.agree.load(Ordering::Relaxed) == 0 {
-        cx.machinery_error("no export agreed with its definition: the oracle is vacuous or systematically wrong");
+    // vacuity guard on the finest grain (a defect that spoils every export as a whole must
+    // still come out as a violation, not as a machinery problem)
+    if cnt.equal_defs.load(Ordering::Relaxed) == 0 {
+        cx.machinery_error("not a single definition was exported as defined: the oracle is vacuous or systematically wrong");
     }
     cx.rule(&format!(
         "case = (schema, text-slot filling, SDLExportOptions). Schemas: the derive family (every definition kind; 8 symbol classes × 13 slot kinds of fixed annotated items), S1, the dynamic interface chain, and the dynamic exemplar with {} text slots (type/field/argument/enum-value/input-field descriptions, deprecation reasons, string defaults incl. inside lists and objects, directive-application strings at 10 locations, specifiedBy URL). Strings: all {} strings of length ≤ 1 and all {} further strings of length 2 over the 8-symbol alphabet, one slot at a time{}. Options: all {} combinations (8 switches × indent width {{0,2,4}}) for the static schemas, the chain and the unfilled exemplar{}; the {} combinations of federation × prefer_single_line × include_specified_by × (tab | space width 0/2/4) — the switches that decide how text is written; the others only reorder members or append federation links — otherwise. Non-trivial = every case (each is a distinct export judged by both parsers and the model comparison).",
